@@ -70,6 +70,8 @@ def content_for(cls, name, idx):
         return corpus.err_c(name, ERRV[idx % len(ERRV)])
     if cls == "errdef":
         return corpus.err_c(name, ERRDEF[idx % len(ERRDEF)])
+    if cls == "errmany":
+        return corpus.err_many_c(name)
     if cls == "fatal":
         return corpus.fatal_c(name, FATV[idx % len(FATV)])
     if cls == "fatalif":
